@@ -69,7 +69,7 @@ def data_spec(role, bound, passes):
 class Case:
     """one member of the family; fields are the enumerated choices"""
 
-    __slots__ = ("p", "w", "o", "v", "i", "b", "bkind", "s", "n", "pass_o", "pass_i", "only_o", "only_i", "body", "data_alias", "default_alias", "deep", "loop", "vloop")
+    __slots__ = ("p", "w", "o", "v", "i", "b", "bkind", "s", "n", "pass_o", "pass_i", "only_o", "only_i", "body", "data_alias", "default_alias", "deep", "loop", "vloop", "alias_x")
 
     def key(self):
         return tuple(getattr(self, f) for f in self.__slots__)
@@ -99,13 +99,18 @@ def build(case, ctxvals):
     elif c.body == "implicit":
         body = reads("fill")
     else:
-        extra = ()
-        fill_nodes = list(reads("fill"))
+        # alias_x: the data= alias is called `x` (resp. the default= alias `y`) - a name that other roles bind too;
+        # the aliases sit on top of everything else in both modes
+        ax = getattr(c, "alias_x", False)
+        dname = "x" if (ax and c.data_alias) else "d"
+        dfname = "y" if (ax and c.default_alias) else "df"
+        skip = tuple(n for n, used in (("x", ax and c.data_alias), ("y", ax and c.default_alias)) if used)
+        fill_nodes = list(reads("fill", skip=skip))
         if c.data_alias:
-            fill_nodes += [("T", "d.sx="), ("V", "d.sx"), ("T", ";")]
+            fill_nodes += [("T", "d.sx="), ("V", dname + ".sx"), ("T", ";")]
         if c.default_alias:
-            fill_nodes += [("D", "df")]
-        fill = ("Fill", "s", "d" if c.data_alias else None, "df" if c.default_alias else None, tuple(fill_nodes))
+            fill_nodes += [("D", dfname)]
+        fill = ("Fill", "s", dname if c.data_alias else None, dfname if c.default_alias else None, tuple(fill_nodes))
         if c.b is None:
             body = (fill,)
         elif c.bkind == "for":
@@ -176,7 +181,14 @@ def cases(tier, mode):
                                         c.body, c.data_alias, c.default_alias, c.deep = body, da, dfa, deep
                                         c.loop = False
                                         c.vloop = None
+                                        c.alias_x = False
                                         yield c
+                                        if (da or dfa) and (thorough or (deep is None and not pass_o)):
+                                            c4 = Case()
+                                            for f in Case.__slots__:
+                                                setattr(c4, f, getattr(c, f))
+                                            c4.alias_x = True
+                                            yield c4
                                         if body == "fill" and not only_i and (thorough or (not da and not dfa and not pass_o and not pass_i and deep is None)):
                                             # a loop around the inner tag (outside the with around it) binding a name the fill reads
                                             for vl in (("x", "y") if thorough else ("x",)):
@@ -184,6 +196,7 @@ def cases(tier, mode):
                                                 for f in Case.__slots__:
                                                     setattr(c3, f, getattr(c, f))
                                                 c3.vloop = vl
+                                                c3.alias_x = False
                                                 yield c3
                                         if (thorough or (not da and not dfa and b is None)) and (w or o):
                                             # the same unit inside a {% for %}: with-bindings and enclosing component data
@@ -193,6 +206,7 @@ def cases(tier, mode):
                                                 setattr(c2, f, getattr(c, f))
                                             c2.loop = True
                                             c2.vloop = None
+                                            c2.alias_x = False
                                             yield c2
 
 
